@@ -50,8 +50,8 @@ def h_cross(B, cls="CPCCA", n=4, p=2, q=2, k=2, alpha=1.0, cplx=False, metrics=T
     Q1 = d["components1"].transpose(model.feature_name[0], "mode").data
     Q2 = d["components2"].transpose(model.feature_name[1], "mode").data
     sv = d["singular_values"].data
-    S1 = d["scores1"].transpose("sample", "mode").data
-    S2 = d["scores2"].transpose("sample", "mode").data
+    S1 = d["scores1"].copy(deep=True).transpose("sample", "mode").data  # deep copies: later accessor calls must not be able to alter what was read here
+    S2 = d["scores2"].copy(deep=True).transpose("sample", "mode").data
     B.eq("Q1^H C_w Q2 == diag(singular values)", _H(Q1) @ Cw @ Q2, np.diag(np.ones(k)) * sv)
     B.eq("scores1 == whitened X projected on Q1", S1, Xw @ Q1)
     B.eq("scores2 == whitened Y projected on Q2", S2, Yw @ Q2)
@@ -67,6 +67,13 @@ def h_cross(B, cls="CPCCA", n=4, p=2, q=2, k=2, alpha=1.0, cplx=False, metrics=T
         if a_ == 0.0:
             Cz = B.alias(_H(Zc) @ Zc / n)
             B.eq(f"field {nm} (alpha=0): T^H C T == I for the oracle covariance C", _H(T_) @ Cz @ T_, np.eye(pp))
+    # the same relation through the public accessors, after the non-default variants have been used
+    model.scores(normalized=True)
+    model.components(normalized=False)
+    S1b, S2b = model.scores()
+    B.eq("scores() after scores(normalized=True): still the stored scores1", S1b.transpose("time", "mode").data, S1)
+    B.eq("scores() after scores(normalized=True): still the stored scores2", S2b.transpose("time", "mode").data, S2)
+    B.eq("scores() after scores(normalized=True): data container untouched", model.data["scores1"].transpose("sample", "mode").data, S1)
     B.ge("singular values non-negative", sv, np.zeros(k))
     if k > 1:
         B.ge("singular values descending", sv[:-1], sv[1:])
